@@ -615,6 +615,11 @@ fn main() {
     lists.push(("single float chunk".into(), vec![floats(&mut rng, 30_001)], false));
     let tiny: Vec<Vec<u8>> = (0..300).map(|i| match i % 3 { 0 => random(&mut rng, 1 + i % 17), 1 => vec![i as u8; 1 + i % 23], _ => floats(&mut rng, 4 + i % 9) }).collect();
     lists.push(("300 tiny chunks".into(), tiny, false));
+    // more chunks than the footer parsers' pre-allocation cap (AVERAGE_NUM_CHUNKS_PER_XORB * 9 / 8 = 1152), up to the format's usual maximum
+    for n in [1152usize, 1153, 3000, 8192] {
+        let many: Vec<Vec<u8>> = (0..n).map(|i| vec![(i % 251) as u8; 1 + i % 5]).collect();
+        lists.push((format!("{n} chunks of 1..5 bytes"), many, false));
+    }
     let residues: Vec<Vec<u8>> = (1..=11usize).chain(20_000..20_004).map(|n| floats(&mut rng, n)).collect();
     lists.push(("float data of every length residue mod 4".into(), residues, false));
 
